@@ -248,7 +248,7 @@ struct Driver {
                     e.raw("ct_head", jbytes(Bytes(rec->data.begin(), rec->data.begin() + head)));
                     e.raw("ct_tail", jbytes(Bytes(rec->data.begin() + tb * 64, rec->data.end())));
                 }
-                if (c.i("full", 0)) { e.raw("p", jbytes(sl.payload)); }     // thorough tier: TLC hashes the whole payload
+                if (c.i("full", 0)) { e.raw("p", jbytes(sl.payload)); if (rec) e.raw("ct", jbytes(rec->data)); }     // thorough tier: TLC hashes / re-encrypts the whole payload
             }
             e.raw("post", proj(k, sl.id, false));
             e.emit();
